@@ -19,6 +19,8 @@ extern void* __libc_memalign(size_t, size_t);
 static uint8_t* const arena = (uint8_t*)ARENA_BASE;
 static uint8_t* const shadow = (uint8_t*)SHADOW_BASE;
 static uintptr_t bump = 0;
+static uint64_t n_alloc, n_free, live_bytes;
+void fmc_heap_stats(uint64_t* allocs, uint64_t* frees, uint64_t* live) { *allocs = n_alloc; *frees = n_free; *live = live_bytes; }
 static int arena_ready = 0;
 
 typedef struct {
@@ -60,6 +62,8 @@ static void* arena_alloc(size_t n, size_t align, void* pc) {
   }
   bump = end;
   hdr_t* h = (hdr_t*)(arena + start - RZ);
+  n_alloc++;
+  live_bytes += n;
   h->size = n;
   h->magic = MAGIC;
   h->freed = 0;
@@ -87,6 +91,8 @@ static void arena_free(void* p, void* pc) {
     fmc_finish(V_FAIL, b);
   }
   h->freed = 1;
+  n_free++;
+  live_bytes -= h->size;
   h->free_pc = pc;
   size_t un = (h->size + 15) & ~(size_t)15;
   if (un == 0) un = 16;
